@@ -21,7 +21,17 @@ RULE = ("loader kinds manual / empirical / marginal-direct / marginal-sampling /
         "without n_samples; sampling mode only with explicit True; the other loaders must ignore both keys), "
         "joint_degree_type also present on direct construction and given as enum or as string; malformed: all-zero marginal "
         "(ZeroDivisionError), fewer callables "
-        "than bounds (IndexError), sampling without dimensions (ValueError). The oracle is lenient and primitive-agnostic: a "
+        "than bounds (IndexError), sampling without dimensions (ValueError). HISTORIES (a third of the exhaustive empirical "
+        "sequences, 40% of the random valid cases, six corpus cases per path): after the loader was built the caller "
+        "edits the objects the loader holds - the observed sequence / dictionary / motif sizes through the public "
+        "accessors empirical_jds / jdd / motif_sizes (in the code these ARE the caller's own objects), the caller's bounds "
+        "list and callable list in place - and calls create_jdd() again, 1-3 steps: same object with the SAME length "
+        "(entries re-assigned), same object with another length (tail deleted / appended, dimension changed), a new or "
+        "a new EQUAL object through the setter, the SAME callables answering differently, new callables in the same "
+        "list, nothing changed, optionally the previously exposed jdd dict damaged first and the motif sizes changed, a "
+        "quarter of the steps building a NEW loader from the same params dict instead of calling create_jdd(); "
+        "every further answer is compared with the model of the CURRENT contents and judged by c06_check on the "
+        "CURRENT contents. The oracle is lenient and primitive-agnostic: a "
         "call of any random primitive the documented behaviour does not make is answered from a seeded fallback and recorded "
         "(a correspondence difference), and the distribution finally exposed is still judged by the verified checker. "
         "Compared: the .jdd mapping as a key->value map, "
@@ -31,7 +41,9 @@ RULE = ("loader kinds manual / empirical / marginal-direct / marginal-sampling /
 EXHAUSTIVE = {"quick": True, "thorough": True}
 EXPLANATION = ("general theorems (all inputs) in Props/C06.v; sampling-limit clause partial (the result is proved to be the "
                "empirical law of the column-stacked oracle answers; the law of large numbers for the RNG oracle is not "
-               "proved); correspondence exhaustive on small families + random; verified checker c06_check on every output")
+               "proved); correspondence exhaustive on small families + random; verified checker c06_check on every output, "
+               "including every later create_jdd() of a history after the caller edited the held objects (judged "
+               "against their current contents)")
 ASSUMPTIONS = ["float products/sums of the dyadic table values are exact; each float division is within 1e-9 (relative)",
                "random.choices follows the weights (see C05); numpy.column_stack(...).tolist() transposes as modelled",
                "itertools.product enumerates the box (order irrelevant: maps are compared as maps)"]
@@ -271,14 +283,16 @@ def _then(rng, c):
       repeat         nothing changes, create_jdd() once more
     `same_len` asks for new contents of the SAME length / dimension (the neighbour case of 'the list grew');
     `damage` : the caller also damages the previously exposed jdd dict first (loaders that build it themselves);
-    `sizes`  : the motif sizes change too (in place or through the setter) - never part of the law."""
+    `sizes`  : the motif sizes change too (in place or through the setter) - never part of the law;
+    `reload` : instead of create_jdd() on the old loader, a NEW loader is built from the same params dict (same
+               construction path; it replaces the old one for the following steps)."""
     k = c["kind"]
     steps = []
     cur = c
     for _ in range(rng.choice([1, 1, 2, 3])):
         how = rng.choice(["inplace", "inplace", "inplace", "new_callables", "setter", "equal", "repeat"])
         same_len = rng.random() < 0.6
-        st = {"how": how, "damage": rng.random() < 0.3}
+        st = {"how": how, "damage": rng.random() < 0.3, "reload": rng.random() < 0.25}
         if how in ("equal", "repeat"):
             new = {f: copy.deepcopy(cur[f]) for f in DATA[k]}
         elif k == 0:
@@ -519,8 +533,9 @@ def _obs_calls(clog, d):
     return [calls[i:i + d] for i in range(0, len(calls), d)], [idxs[i:i + d] for i in range(0, len(idxs), d)]
 
 
-def _run_step(k, st, sc, loader, params, NM, script):
-    """apply one step of a history to the caller's own objects, call create_jdd() again, observe"""
+def _run_step(k, st, sc, loader, params, NM, script, rebuild):
+    """apply one step of a history to the caller's own objects, call create_jdd() again (or, `reload`: build a new loader
+    from the SAME params dict, which then replaces the old one), observe; returns (observation, current loader)"""
     how = st["how"]
     if st.get("damage") and k != 0 and isinstance(loader.jdd, dict):
         # the caller damaged the dict the loader exposed before (the manual loader exposes the caller's own dict)
@@ -534,6 +549,8 @@ def _run_step(k, st, sc, loader, params, NM, script):
         new = {tuple(key): float(fr(v)) for key, v in sc["jdd"]}
         if inplace:
             _edit_dict(loader.jdd, new)          # the dictionary the loader exposes (unchanged code: the caller's own)
+            if params[NM.JDD] is not loader.jdd:
+                _edit_dict(params[NM.JDD], new)
         else:
             params[NM.JDD] = new
             loader.jdd = new
@@ -541,6 +558,8 @@ def _run_step(k, st, sc, loader, params, NM, script):
         new = [tuple(x) for x in sc["jds"]]
         if inplace:
             _edit_list(loader.empirical_jds, new)    # the sequence the loader holds and exposes (the caller's own list)
+            if params[NM.JDS] is not loader.empirical_jds:
+                _edit_list(params[NM.JDS], new)
         else:
             params[NM.JDS] = new
             loader.empirical_jds = new
@@ -565,6 +584,8 @@ def _run_step(k, st, sc, loader, params, NM, script):
             params[NM.MOTIF_SIZES] = loader.motif_sizes
         else:
             _edit_list(loader.motif_sizes, list(st["sizes"]))
+            if params[NM.MOTIF_SIZES] is not loader.motif_sizes:
+                _edit_list(params[NM.MOTIF_SIZES], list(st["sizes"]))
 
     def held():
         if k == 0:
@@ -577,17 +598,21 @@ def _run_step(k, st, sc, loader, params, NM, script):
     n0 = len(script.log)
     out = {"how": how}
     try:
-        loader.create_jdd()
+        if st.get("reload"):
+            loader = rebuild()
+            out["how"] = how + "+reload"
+        else:
+            loader.create_jdd()
     except Exception as e:  # noqa: BLE001
         out["exc"] = type(e).__name__
-        return out
+        return out, loader
     out["jdd"] = _obs_jdd(loader)
     d = max(1, len(sc.get("bounds", [])))
     out["calls"], out["answers"] = _obs_calls([e for e in script.log[n0:] if e[0] == "choices"], d)
     out["n_choices_calls"] = sum(1 for e in script.log[n0:] if e[0] == "choices")
     out["inputs_unchanged"] = held() == before and list(loader.motif_sizes) == msz
     out["same_object"] = (loader.jdd is params[NM.JDD]) if k == 0 else None
-    return out
+    return out, loader
 
 
 def impl(case):
@@ -677,14 +702,17 @@ def impl(case):
         out = {"jdd": jdd, "calls": rounds, "answers": idxs, "n_choices_calls": len(clog),
                "unused_answers": n_first - script.pos,
                "same_object": (loader.jdd is given) if k == 0 else None, "cls": type(loader).__name__,
-               # the loaders hold the caller's objects themselves (no copies) - a correspondence matter only
+               # recorded only (never judged): the loaders hold the caller's objects themselves, they make no copies
                "holds_callers_objects": (loader.motif_sizes is params[NM.MOTIF_SIZES]) and
                (k != 1 or loader.empirical_jds is params[NM.JDS]),
                "inputs_unchanged": inputs() == before and list(loader.motif_sizes) == msz}
         # history: the caller edits its own objects and asks again (same loader, same objects)
         steps = []
         for st, sc in zip(case.get("then", []), scs):
-            steps.append(_run_step(k, st, sc, loader, params, NM, script))
+            direct = case.get("path", 0) == 0 or k == 3       # a reload in sampling mode draws one round only
+            o, loader = _run_step(k, st, sc, loader, params, NM, script,
+                                  (lambda: cls(params)) if direct else (lambda: JointDegreeDistribution.load_joint_degree(params)))
+            steps.append(o)
             if "exc" in steps[-1]:
                 break
         if "then" in case:
@@ -745,8 +773,6 @@ def compare(case, io, mo):
         return "a jdd key is not a tuple of ints"
     if case["kind"] == 0 and not io["same_object"]:
         return "manual loader does not expose the given dictionary object"
-    if not io.get("holds_callers_objects", True):
-        return "the loader holds a copy of the caller's observed sequence / motif sizes, not the object it was given"
     return None
 
 
@@ -856,7 +882,7 @@ def shrink(case):
             del c["then"]
         yield c
         for i, st in enumerate(th):
-            for f in ("damage", "sizes"):
+            for f in ("damage", "sizes", "reload"):
                 if st.get(f):
                     c = copy.deepcopy(case)
                     del c["then"][i][f]
